@@ -243,7 +243,8 @@ func sub(s schema.Change) string {
 	case *schema.DropColumn:
 		return "DropColumn " + s.C.Name
 	case *schema.ModifyColumn:
-		return "ModifyColumn " + s.To.Name + " " + strings.Join(bits(s.Change, map[schema.ChangeKind]string{schema.ChangeNull: "null", schema.ChangeType: "type", schema.ChangeDefault: "default"}), ",")
+		return "ModifyColumn " + s.To.Name + " " + strings.Join(bits(s.Change, map[schema.ChangeKind]string{schema.ChangeNull: "null", schema.ChangeType: "type", schema.ChangeDefault: "default", schema.ChangeCharset: "charset", schema.ChangeCollate: "collate",
+			schema.ChangeComment: "comment", schema.ChangeGenerated: "generated"}), ",")
 	case *schema.AddIndex:
 		return "AddIndex " + s.I.Name
 	case *schema.DropIndex:
